@@ -100,6 +100,30 @@ func c06RaceStressChild(c *core.Ctx, args []string) int {
 	}
 	close(start)
 	wg.Wait()
+	// second phase: ONE returned value is handed to four goroutines that call
+	// its accessors at the same time (the property covers "the accessor methods
+	// of returned values"): nothing an accessor does may write to the value
+	for k := range W {
+		if len(W[k].Data) > 8192 {
+			continue
+		}
+		shared := mimetype.Detect(W[k].Data)
+		looked := mimetype.Lookup(bare(shared.String()))
+		var wg2 sync.WaitGroup
+		for g := 0; g < 4; g++ {
+			wg2.Add(1)
+			go func() {
+				defer wg2.Done()
+				for _, v := range []*mimetype.MIME{shared, looked} {
+					for p := v; p != nil; p = p.Parent() {
+						_ = p.String() + p.Extension()
+						_ = p.Is("application/zip")
+					}
+				}
+			}()
+		}
+		wg2.Wait()
+	}
 	fmt.Println("race-stress-complete")
 	return 0
 }
